@@ -2131,6 +2131,15 @@ func (a *Authenticator) handleClientAuthentication(ctx context.Context, negotiat
 
 	if !authRequired {
 		slog.Debug("🔐 CLIENT: No authentication required", "destination", "cedar")
+		// Whether authentication runs is the server's decision (its YES/NO answer);
+		// the client's own negotiateSecurity pass only sees that answer, not the
+		// server's level, so its Authentication guess can disagree with what happens
+		// on the wire. Report what actually happened -- nothing ran -- and refuse to
+		// continue when this client's own policy demands authentication.
+		negotiation.Authentication = false
+		if a.config.Authentication == SecurityRequired {
+			return fmt.Errorf("client requires authentication but the server declined to authenticate")
+		}
 		return nil
 	}
 
@@ -2246,6 +2255,10 @@ func (a *Authenticator) handleClientAuthentication(ctx context.Context, negotiat
 
 		slog.Debug(fmt.Sprintf("✅ CLIENT: Authentication successful with method: %s", selectedMethod), "destination", "cedar")
 		negotiation.NegotiatedAuth = selectedMethod
+		// An authentication exchange ran to completion: that, not the client's
+		// pre-computed guess, is the outcome reported to the caller (and it now
+		// agrees with what the server reports for the same session).
+		negotiation.Authentication = true
 
 		// After successful authentication, perform key exchange as in HTCondor's Authentication::exchangeKey
 		// For modern HTCondor with AESGCM crypto, the server always sends an empty key
